@@ -89,6 +89,20 @@ func c09Gen(rt *rapid.T) wProg {
 		case x < 80:
 			// unsubscribe, then keep sending notes from the now detached session (recv is routed by the hub)
 			t := topicFor(s)
+			if u := p.Sess[s]; u <= 1 && gPct(rt, 60) {
+				// the P2P topic, with a fresh message from the peer (who stays attached)
+				t = fmt.Sprintf("p%d", 1-u)
+				ps := 0
+				if u == 0 {
+					for k, x := range p.Sess {
+						if x == 1 {
+							ps = k
+							break
+						}
+					}
+				}
+				p.Ops = append(p.Ops, wOp{K: "sub", S: s, T: t}, wOp{K: "sub", S: ps, T: fmt.Sprintf("p%d", u)}, wOp{K: "pub", S: ps, T: fmt.Sprintf("p%d", u)})
+			}
 			p.Ops = append(p.Ops, wOp{K: "leave", S: s, T: t, F: true},
 				wOp{K: "note", S: s, T: t, A: gPick(rt, []string{"recv", "recv", "read"}, "what"), N: rapid.IntRange(1, 4).Draw(rt, "seq")})
 		case x < 86:
